@@ -1378,6 +1378,8 @@ class Terms:
                     src = s2["rv"].get("place") or (s2["rv"].get("op") or {}).get("place")
                     if not src or src["l"] not in derived or s2["place"]["p"] or s2["place"]["l"] in derived:
                         continue
+                    if s2["rv"]["k"] in ("use", "cast") and any(e["k"] == "deref" for e in src["p"]):
+                        continue   # `x = *r`: a copy of the value, not another name for the object
                     derived.add(s2["place"]["l"])
                     changed = True
         # the reference itself handed on to a call (`list.retain(..)`, `helper(x)`): not followed here — the caller falls back
@@ -2550,7 +2552,9 @@ def expand_byte_calls(program, N, segs, depth=0):
             continue
         ret = N.norm(Terms(program, b).place(0, (), b.return_blocks()[0], "t"))
         inner = byte_segments(ret)
-        if inner == [ret] and (not isinstance(ret, tuple) or ret[:1] in (("gamma",), ("phi",)) or term_contains(ret, lambda y: isinstance(y, tuple) and len(y) == 2 and y[0] in ("cyclic", "opaque", "undef"))):
+        # (a helper whose value is one indivisible byte string — `x.to_be_bytes()`, an array, a constant — is read through its
+        # value; one that fills a buffer at positions, selects, or loops stays a call for the layout reader of the rule)
+        if inner == [ret] and (not isinstance(ret, tuple) or ret[:1] not in (("call",), ("array",), ("const",), ("field",)) or term_contains(ret, lambda y: isinstance(y, tuple) and y and y[0] in ("cyclic", "opaque", "undef", "upd", "with", "repeat", "gamma", "phi"))):
             out.append(s)
             continue
         sub = []
